@@ -477,6 +477,13 @@ class HostileServer:
                             for ln in lines:
                                 dw.write(ln + b"\r\n")
                         dw.close()
+                    closing = plan.get("closing")
+                    if closing == "silent":
+                        continue        # the completion reply never comes
+                    if closing:
+                        writer.write(closing.encode() + b"\r\n")
+                        await writer.drain()
+                        continue
                     writer.write(self.reply("226", b"226 done\r\n"))
                 elif verb in base:
                     writer.write(self.reply(verb, base[verb]))
@@ -602,6 +609,11 @@ async def client_side(net, hyg, plan):
                     cmds_before = len(hs.cmds)
                     kw = {"recursive": True} if op == "list_recursive" else ({"raw_command": "LIST"} if op == "list_raw" else {})
                     st, r = await call(op, c.list("/d", **kw))
+                    if st == "exc" and plan.get("closing") and not isinstance(r, ValueError):
+                        # a line that is no entry is reported by the documented ValueError as soon as it is read, whatever the server
+                        # says (or does not say) at the end of the transfer
+                        viol.append({"key": f"unparsable-line-not-reported-by-ValueError:{op}",
+                                     "msg": f"plan {plan}: {r!r} from list(); lines sent {hs.listing_sent[before:][:1]}"[:500]})
                     if st == "exc" and plan["target"] in ("listing", "not_entry") and isinstance(r, (LookupError, TypeError, AttributeError, ArithmeticError)):
                         # only the listing lines are out of the ordinary here (every control reply is a valid one): what they
                         # cause is "the documented ValueError", not an accident inside the lister
@@ -777,6 +789,10 @@ def gen_cases(tier, seed):
             for passive in ("epsv", "pasv"):
                 for ops in (["list_recursive"], ["list", "list_recursive", "list_raw"], ["list_raw", "list_recursive"]):
                     plans.append({"seed": seed, "target": "tree", "dots": dots, "no_mlsd": no_mlsd, "budget": 120, "passive": passive, "ops": ops})
+    # a line that is no entry, and a transfer that ends badly (426) or whose completion reply never comes
+    for i, closing in enumerate(("426 data connection closed", "451 local error", "silent", "550 no", "silent", "426 aborted")):
+        plans.append({"seed": seed * 77 + i, "target": "not_entry", "budget": 12, "passive": ["epsv", "pasv"][i % 2], "no_mlsd": i % 2 == 1,
+                      "ops": [["list_raw"], ["list"]][i % 2], "closing": closing})
     # a passive-mode answer pointing at a port where connects are never answered, a client with connection_timeout: the call ends
     # (by that time-out) instead of waiting for the operating system to give up
     for passive in ("epsv", "pasv"):
